@@ -14,7 +14,7 @@ its overflow guards follow the source (`Gen.BinaryMerkle.verifyShlChecked/verify
 Theorems in this file hold for the code with or without repo-patches/fix-C10-verify-u64-overflow.diff;
 Props/C10Fix.lean holds the statements that need the fix (counts 2^63 … 2^64-1).
 -/
-import FuelVerif.Lemmas.BinaryMerkleVerifyB
+import FuelVerif.Lemmas.BinaryMerkleStore
 namespace FuelVerif.BMT
 open FuelVerif
 
@@ -60,14 +60,43 @@ theorem verify_rejects_wrong_length (H : HashFn) (root data : Bytes) (proof : Li
   rw [verify_iff_below_2_63 H _ _ _ _ _ hn, rootFromPath_eq_fold H _ n index proof hi, if_neg hl]
   simp
 
-/-- **the property's completeness half, stated in full** (tree-produced proofs verify). What is proved
-here is the specification-level `verify_accepts_audit_path`; that `MerkleTree::prove` returns exactly
-`(mth, auditPath)` is `C11Statement`'s `prove` field (Props/C11.lean: proved for …, see there). -/
-def C10CompletenessStatement : Prop :=
-  ∀ (H : HashFn), H [] = emptySum → ∀ (D : List Bytes) (t : Tree) (i : Nat) (d : Bytes),
-    D.length < 2 ^ 63 → D[i]? = some d →
-    (D.foldl (fun (r : Except Err Tree) x => match r with | .ok t => t.push H x | .error e => .error e) (.ok (Tree.new []))) = .ok t →
-    ∃ root proof, t.prove H i = .ok (root, proof) ∧ verify H root d proof i D.length = .ok true
+/-- **completeness, in full**: for every leaf list `D` (fewer than 2^63 leaves) pushed into a new tree
+over any initial storage, every push succeeds and for EVERY index `i < |D|` the proof the tree
+produces is `(MTH(D), PATH(i, D))` and `verify` accepts it with that leaf's data, index `i` and count
+`|D|` against the tree's root; for every index `≥ |D|` the tree refuses. (`in_memory::MerkleTree` is
+this tree over a `StorageMap`.) -/
+theorem tree_proof_verifies (H : HashFn) (hE : H [] = emptySum) (storage : Storage) (D : List Bytes)
+    (hn : D.length < 2 ^ 63) :
+    ∃ t, treePushAll H (Tree.new storage) D = .ok t ∧ t.root H = .ok (mth H D) ∧
+      (∀ i d, D[i]? = some d →
+        t.prove H i = .ok (mth H D, auditPath H i D) ∧
+        verify H (mth H D) d (auditPath H i D) i D.length = .ok true) ∧
+      (∀ i, D.length ≤ i → t.prove H i = .error (.invalidProofIndex i)) := by
+  obtain ⟨t, hrun, inv⟩ := treePushAll_inv H D [] (Tree.new storage) (TreeInv.new H storage) (by simpa using hn)
+  simp only [List.nil_append] at inv
+  refine ⟨t, hrun, inv.root hE hn, ?_, inv.prove_refuses⟩
+  intro i d hd
+  have hi : i < D.length := by
+    rcases Nat.lt_or_ge i D.length with h | h
+    · exact h
+    · rw [List.getElem?_eq_none h] at hd; cases hd
+  exact ⟨inv.prove hn i hi, verify_accepts_audit_path H D i d hd hn⟩
+
+/-- soundness spelled out for tree-produced proofs: whatever the verifier accepts for a root equal to
+a tree hash recomputes to that tree hash — in particular a proof of leaf `i` does not verify for
+other data, index or count unless the recomputation still reaches the same root -/
+theorem verify_true_iff_recomputes (H : HashFn) (root data : Bytes) (proof : List Bytes) (index n : Nat)
+    (hn : n < 2 ^ 63) :
+    verify H root data proof index n = .ok true ↔
+      (index < n ∧ rootFromPath H index n (leafSum H data) proof = some root) := by
+  rw [verify_iff_below_2_63 H root data proof index n hn]
+  constructor
+  · intro h
+    have : decide (index < n ∧ rootFromPath H index n (leafSum H data) proof = some root) = true := by
+      injection h
+    exact of_decide_eq_true this
+  · intro h
+    rw [decide_eq_true h]
 
 /-! ### negative witnesses on the verifier WITHOUT the guards (DESIGN §6 F5) -/
 
@@ -97,6 +126,13 @@ theorem verify_guarded_total_witness :
   decide
 
 /-! ### non-vacuity -/
+
+example : ∃ t, treePushAll toyHash (Tree.new []) fiveLeavesV = .ok t ∧ t.root toyHash = .ok (mth toyHash fiveLeavesV) ∧
+    (∀ i d, fiveLeavesV[i]? = some d →
+      t.prove toyHash i = .ok (mth toyHash fiveLeavesV, auditPath toyHash i fiveLeavesV) ∧
+      verify toyHash (mth toyHash fiveLeavesV) d (auditPath toyHash i fiveLeavesV) i fiveLeavesV.length = .ok true) ∧
+    (∀ i, fiveLeavesV.length ≤ i → t.prove toyHash i = .error (.invalidProofIndex i)) :=
+  tree_proof_verifies toyHash rfl [] fiveLeavesV (by decide)
 
 example : verify toyHash (mth toyHash fiveLeavesV) [2, 2] (auditPath toyHash 2 fiveLeavesV) 2 5 = .ok true :=
   verify_accepts_audit_path toyHash fiveLeavesV 2 [2, 2] (by decide) (by decide)
